@@ -197,6 +197,7 @@ fn collect<'tcx>(tcx: TyCtxt<'tcx>) -> J {
         o.push(("path", J::s(cx.path(did))));
         o.push(("kind", J::s(format!("{:?}", kind))));
         o.push(("span", cx.span(tcx.def_span(did))));
+        o.push(("generics", type_param_names(tcx, did)));
         if matches!(kind, DefKind::Fn | DefKind::AssocFn) {
             o.push(("vis", J::s(vis_str(tcx, did))));
             o.push(("const", J::Bool(tcx.is_const_fn(did))));
@@ -245,6 +246,27 @@ fn collect<'tcx>(tcx: TyCtxt<'tcx>) -> J {
         "bodies": J::Arr(bodies),
         "types": types,
     }
+}
+
+/// names of the type parameters in scope of `did` (parents first), in the order rustc
+/// lists the generic arguments of a call to it
+fn type_param_names<'tcx>(tcx: TyCtxt<'tcx>, did: DefId) -> J {
+    let mut chain = Vec::new();
+    let mut cur = Some(did);
+    while let Some(d) = cur {
+        let g = tcx.generics_of(d);
+        chain.push(g);
+        cur = g.parent;
+    }
+    let mut names = Vec::new();
+    for g in chain.iter().rev() {
+        for p in g.own_params.iter() {
+            if matches!(p.kind, ty::GenericParamDefKind::Type { .. }) {
+                names.push(J::s(p.name.to_string()));
+            }
+        }
+    }
+    J::Arr(names)
 }
 
 fn adt_facts<'tcx>(cx: &mut Ctx<'tcx>, did: DefId) -> J {
